@@ -9,9 +9,16 @@ def decode(string):
 
 unsafe_decode = decode
 
-def validate_decoded(integer):
-  pass
-  # always valid
+def validate_decoded(obj):
+  if isinstance(obj, int) or isinstance(obj, float):
+    if obj != obj or obj in (float("inf"), float("-inf")):
+      raise gfapy.ValueError(
+        "{} cannot be represented in a float field".format(repr(obj)))
+  else:
+    raise gfapy.TypeError(
+      "the class {} is incompatible with the datatype\n"
+      .format(obj.__class__.__name__)+
+      "(accepted classes: str, int, float)")
 
 def validate_encoded(string):
   if not re.match(r"^[-+]?[0-9]*\.?[0-9]+([eE][-+]?[0-9]+)?$", string):
